@@ -512,6 +512,8 @@ impl<W> Sha256Writer<W> {
 
 impl<W: std::io::Write> std::io::Write for Sha256Writer<W> {
     fn write(&mut self, buf: &[u8]) -> std::io::Result<usize> {
+        #[cfg(feature = "verif-hooks")]
+        crate::verif_hooks::hit("sha256writer.write");
         self.hasher.update(buf);
         self.writer.write(buf)
     }
